@@ -124,9 +124,7 @@ theorem getEntry_mem {es : List Entry} {n : Name} {e : Entry} (h : getEntry es n
   List.mem_of_find?_eq_some h
 
 theorem findByLegacyId_mem {es : List Entry} {id : Name} {e : Entry} (h : findByLegacyId es id = some e) : e ∈ es := by
-  unfold findByLegacyId at h
-  have := List.mem_of_mem_head? h
-  exact (List.mem_filter.mp (mem_isort.mp this)).1
+  exact List.mem_of_find?_eq_some h
 
 /-- the shape shared by all config-entry writes: normalize, validate, then replace the entry -/
 theorem storeWF_commit {st : Store} (h : StoreWF st) (legacy : Bool) (e : Entry) (hle : Lower e.name) :
